@@ -99,7 +99,8 @@ def checkC01 (h : History) (obs : List RunObs) : Option String :=
           let run := h.runs[ks.1]?
           let cls := match run with
             | some r =>
-              if r.destroy && ks.2.inv.isNone then "destroy-inventory-deleted-while-live"
+              if orph = [nsInvId] && !r.destroy then "inventory-namespace-apply-failed"
+              else if r.destroy && ks.2.inv.isNone then "destroy-inventory-deleted-while-live"
               else if !r.destroy && r.opts.noPrune then "noprune-drops-unapplied"
               else "other"
             | none => "other"
@@ -381,7 +382,9 @@ def checkC03 (h : History) (obs : List RunObs) : Option String :=
         let d := resultOf es ["prune", "delete"] i
         let w := lastWait es i
         a = some "Failed" || a = some "Skipped" || d = some "Failed" || d = some "Skipped" ||
-        w = some "Failed" || w = some "Timeout" || i ∈ invalidNamed
+        w = some "Failed" || w = some "Timeout" || i ∈ invalidNamed ||
+        -- pruning disabled: tracked objects that still exist and are not applied count as "delete skipped"
+        (!r.destroy && r.opts.noPrune && i ∉ r.objs.map (·.id) && (snapFind s0 i).isSome)
       let expected := dedup ((applied ++ keepPrev).filter (· ∉ detached) ++ prevInv.filter (fun i => i ∈ invalidNamed))
       let bad1 := if !missing.isEmpty then some s!"applied objects {missing.map (·.name)} are not live with the owning annotation" else none
       let bad2 := if !stillThere.isEmpty then some s!"objects {stillThere.map (·.name)} whose deletion completed still exist" else none
@@ -412,7 +415,8 @@ def checkC03 (h : History) (obs : List RunObs) : Option String :=
             | _ => true
           let prClean := clean po && pr.opts.dry = .none && po.events.all (fun e => match e with | .wait _ i "Pending" => lastWait po.events i = some "Successful" | _ => true)
           if same && prClean && r.failMut.isEmpty && r.failGet.isEmpty && r.failInvRead.isEmpty then
-            if o.muts.any (fun m => m.verb = "create" || m.verb = "delete") then some "re-running an identical clean apply sent a create or delete request"
+            -- (an idempotent create answered AlreadyExists — the inventory namespace — creates nothing and is not counted)
+            if o.muts.any (fun m => (m.verb = "create" || m.verb = "delete") && m.result = "ok") then some "re-running an identical clean apply sent a create or delete request"
             else if !(snapEq { s0 with objs := [] } { o.final with objs := [] }) then some "re-running an identical clean apply changed the stored inventory"
             else none
           else none
@@ -436,6 +440,7 @@ def checkHistory (prop : String) (h : History) (obs : List RunObs) : Bool × Str
 def regionOf (why : String) : Option String :=
   if (why.splitOn "[destroy-inventory-deleted-while-live]").length > 1 then some "C01.destroy-inventory-deleted-while-live"
   else if (why.splitOn "[noprune-drops-unapplied]").length > 1 then some "C01.noprune-drops-unapplied"
+  else if (why.splitOn "[inventory-namespace-apply-failed]").length > 1 then some "C01.inventory-namespace-apply-failed"
   else none
 
 def tagsOf (h : History) (obs : List RunObs) : List String :=
